@@ -232,6 +232,28 @@ P_C16 == [][Step_C16]_pvars
 P_C18 == [][Step_C18]_pvars
 P_C19 == [][Step_C19]_pvars
 
+-----------------------------------------------------------------------------
+(* refinement: every step of Service is a step of the ledger specification (Ledger.tla), whose  *)
+(* conservation laws are an inductive invariant discharged by Apalache for unbounded amounts    *)
+
+RidU == {<<id, b, h, i>> : id \in 1..(MaxCtx + 1), b \in 1..(MaxBatch + 2), h \in 1..(MaxHeight + 1),
+                           i \in 0..Cardinality(Provs)}
+BndU == SvcNames \X Provs
+AnAcct == CHOOSE a \in Accts : TRUE
+
+L == INSTANCE Ledger WITH
+        Accs <- Accts, Reqs <- RidU, Bnds <- BndU,
+        lbal <- [a \in Accts |-> bal[a]],
+        esc <- bal[REQ], depAcct <- bal[DEP], taxAcct <- bal[TAX], lsupply <- supply,
+        pending <- actId,
+        fee <- [r \in RidU |-> IF r \in DOMAIN req THEN req[r].fee ELSE 0],
+        payer <- [r \in RidU |-> IF r \in DOMAIN req /\ r[1] \in DOMAIN ctx THEN ctx[r[1]].cons ELSE AnAcct],
+        owed <- [a \in Accts |-> Get0(earned, a)],
+        dep <- [k \in BndU |-> IF k \in DOMAIN bind THEN bind[k].dep ELSE 0]
+
+LedgerInv == L!IndInv
+LedgerRefined == [][L!LNext]_(L!lvars)
+
 TypeOK ==
     /\ phase \in {"deliver", "expire", "start"}
     /\ \A a \in DOMAIN bal : bal[a] >= 0
